@@ -250,8 +250,37 @@ def replay_zero(ctx, spelled, rust_ty, named, cname='HOLE'):
     return not (sfx == rust_ty and v == 0), det
 
 
+MODULES = [
+    # whole modules whose every named scalar constant must be exported under its own name with its own type and value, whatever the
+    # other constants are (aliases of another constant, folded expressions, non-scalar constants before / between scalar ones)
+    ('const MAX_LIGHTS = 16u;\nconst LIGHT_CAPACITY = MAX_LIGHTS;\nconst TWICE = MAX_LIGHTS * 2u;\n@fragment fn main() {}\n',
+     {'MAX_LIGHTS': ('u32', 16), 'LIGHT_CAPACITY': ('u32', 16), 'TWICE': ('u32', 32)}),
+    ('const DIR = vec3<f32>(0.0, 1.0, 0.0);\nconst SCALE: f32 = 2.5;\nconst OFFS = array<f32, 2>(1.0, 2.0);\nconst COUNT: i32 = -3;\nconst M = mat2x2<f32>(1.0, 0.0, 0.0, 1.0);\n'
+     'const ON: bool = true;\n@fragment fn main() {}\n', {'SCALE': ('f32', 2.5), 'COUNT': ('i32', -3), 'ON': ('bool', True)}),
+    ('const A: i32 = 3;\nconst B = A;\nconst C = B;\nconst Z = i32();\nconst Y = Z;\n@compute @workgroup_size(1) fn main() {}\n',
+     {'A': ('i32', 3), 'B': ('i32', 3), 'C': ('i32', 3), 'Z': ('i32', 0), 'Y': ('i32', 0)}),
+]
+
+
+def native_modules(ctx):
+    for src, want in MODULES:
+        kind, toks, _ = ctx.gen_tokens(src, {})
+        got = {}
+        if kind == 'ok':
+            for name, ty, val, vis in decode_consts(toks):
+                txt = ''.join(T.text([t]) for t in val).replace(' ', '')
+                got[name] = (ty, (txt == 'true') if ty == 'bool' else parse_lit(txt)[1])
+        if kind != 'ok' or got != want:
+            return True, {'wgsl': src, 'expected': {k: list(v) for k, v in want.items()}, 'real': {k: list(v) for k, v in got.items()} if kind == 'ok' else f'{kind}: {toks}'}
+        ctx.replayed_ok += 1
+    return False, {}
+
+
 def native(ctx):
     """literal text round trip on extreme and VERIF_SEED-chosen payloads through the real build"""
+    rep, det = native_modules(ctx)
+    if rep:
+        ctx.report('C15/native-modules', f'a module\'s scalar constants are not exported one for one: expected {det["expected"]}, real {det["real"]}', det, True, det)
     extremes = {
         'F32': [0x00000000, 0x80000000, 0x00000001, 0x7f7fffff, 0xff7fffff, 0x3f800001, 0x00800000, 0x3dcccccd, 0x34000000, 0x5f800000, 0x007fffff],
         'F64': [0x0, 0x8000000000000000, 0x1, 0x7fefffffffffffff, 0xffefffffffffffff, 0x3ff0000000000001, 0x3fb999999999999a, 0x0010000000000000,
